@@ -775,6 +775,10 @@ func runChainCase(r *Runner, cc chainCase, idx int) {
 			}
 			ft.m[u] = b
 			crlEnv[u] = absFetch(b, issuer.Cert)
+			if cc.realFetcher && (b == nil || b.err != nil || b.bundle == nil || b.bundle.BaseCRL == nil || b.bundle.DeltaCRL != nil || b.panicV != nil) {
+				// served as a 404 through the real fetcher (see below): a failed download
+				crlEnv[u] = map[string]any{"base": nil}
+			}
 		}
 		serial := any(cert.Cert.SerialNumber.Int64())
 		if !cert.Cert.SerialNumber.IsInt64() {
@@ -850,7 +854,24 @@ func runChainCase(r *Runner, cc chainCase, idx int) {
 			// the deprecated constructor wires its own HTTP fetcher; only usable when no CRL is involved
 			results, err = v.Validate(chain, st)
 		} else {
-			v, e := revocation.NewWithOptions(revocation.Options{OCSPHTTPClient: client, CRLFetcher: ft, CertChainPurpose: p})
+			var fetcher corecrl.Fetcher = ft
+			if cc.realFetcher {
+				// the CRLs travel over the scripted transport through the real HTTPFetcher (no cache): a URL the fetcher refuses is
+				// refused by the fetcher itself; a scripted failure is a 404; bundles with a delta are not served this way
+				for u, b := range ft.m {
+					if b != nil && b.err == nil && b.bundle != nil && b.bundle.BaseCRL != nil && b.bundle.DeltaCRL == nil && b.panicV == nil {
+						tr.m[u] = &httpBehaviour{body: b.bundle.BaseCRL.Raw}
+					} else {
+						tr.m[u] = &httpBehaviour{status: 404, body: []byte("no such list")}
+					}
+				}
+				hf, herr := corecrl.NewHTTPFetcher(client)
+				if herr != nil {
+					panic(herr)
+				}
+				fetcher = hf
+			}
+			v, e := revocation.NewWithOptions(revocation.Options{OCSPHTTPClient: client, CRLFetcher: fetcher, CertChainPurpose: p})
 			if e != nil {
 				panic(e)
 			}
@@ -919,8 +940,9 @@ func runChainCase(r *Runner, cc chainCase, idx int) {
 	}
 	ft.mu.Unlock()
 	impl["traces"] = traces
-	if cc.cancel == "before" || cc.cancel == "during" {
+	if cc.cancel == "before" || cc.cancel == "during" || cc.realFetcher {
 		// which requests were still started depends on when the cancellation lands; not compared
+		// (real fetcher: the CRL downloads are in the transport's log, not in the scripted fetcher's)
 		delete(impl, "traces")
 	}
 	c.Replay.(map[string]any)["cancel"] = cc.cancel
